@@ -139,18 +139,28 @@ def main(argv=None) -> int:  # noqa: C901
 
     # ---------------- verdict
     known = [k for k in load_known() if k.get("property") == prop and k.get("status") == "open"]
-    known_mech = {k["mechanism"]: k for k in known}
+    def is_known(m: str) -> bool:
+        # an open entry names a mechanism exactly, or the suffix that the classifier appends when the cause is
+        # established from the recorded execution (e.g. ':lp-solver-wrong-optimum')
+        for k in known:
+            if k.get("mechanism") == m:
+                return True
+            suf = k.get("mechanism_suffix")
+            if suf and m.endswith(suf):
+                return True
+        return False
+
     lines: List[str] = []
     new_viol: Dict[str, Dict[str, Any]] = {}
     known_seen: Dict[str, Dict[str, Any]] = {}
     for v in violations:
         m = v["mechanism"]
-        if m in known_mech:
+        if is_known(m):
             known_seen.setdefault(m, v)
         else:
             new_viol.setdefault(m, v)
     n_viol_total = sum(c for k, c in counters.items() if k.startswith("violations:")
-                       and k[len("violations:"):] not in known_mech)
+                       and not is_known(k[len("violations:"):]))
     for m, v in known_seen.items():
         lines.append("KNOWN-FINDING: property=%s %s -- %s" % (prop, m, v["what"][:300].replace("\n", " ")))
     rdir = os.path.join(env.VERIF, "replays", prop)
